@@ -24,6 +24,13 @@
 (*           routing table), depth / fpl = hash folder depth and folders   *)
 (*           per level of the server.                                      *)
 (*                                                                         *)
+(* Construction routes.  A name value can be reached through many legal    *)
+(* API call sequences (Routes below); name objects memoise what they have  *)
+(* computed.  The answer to a query has NO route parameter: whichever      *)
+(* route built the name object, island, routing and location must be the   *)
+(* one Answer(q).  The trace spec demands that every line was taken        *)
+(* through all routes and that all of them gave exactly that answer.       *)
+(*                                                                         *)
 (* Dev: "SliceBeyondHash"  generateHashedDirectoryPath clamps only the END *)
 (*      of each slice of the (unpadded) hex string; when a level STARTS    *)
 (*      beyond the end of the string the slice expression panics.          *)
@@ -80,6 +87,19 @@ Location(hp, island, depth, fpl) ==
   IN IF "SliceBeyondHash" \in Dev /\ Beyond(s, depth, c)
        THEN PanicLoc
        ELSE [panic |-> 0, island |-> island, levels |-> NonEmpty(Levels(s, depth, c)), leaf |-> s]
+
+\* legal ways to arrive at the same name object, on the SDK package and on the server package:
+\*   chain            New().Sanctuary(s).Realm(r).Swamp(w)
+\*   asked-prefixes   every intermediate name is asked (island, string, path) before it is extended
+\*   asked-prefixes-other-N   ... with other island counts
+\*   shared-prefix    one realm-level name, already asked, is the base of another swamp and of this one
+\*   reused-builder   a used name object is the receiver of a new chain
+\*   load / load-of-get / load-of-sdk-get   Load of the string form (valid names only: Load splits at "/")
+\*   same-object-twice  the same question asked twice on one object
+RoutesAlways == {"same-object-twice", "sdk:chain", "sdk:asked-prefixes", "sdk:asked-prefixes-other-N", "sdk:shared-prefix",
+                 "sdk:reused-builder", "srv:chain", "srv:asked-prefixes", "srv:shared-prefix", "srv:reused-builder"}
+RoutesValid  == {"sdk:load", "sdk:load-of-get", "srv:load", "srv:load-of-sdk-get"}
+Routes(valid) == IF valid = 1 THEN RoutesAlways \cup RoutesValid ELSE RoutesAlways
 
 Supported(q) == q.N >= 1 /\ q.N <= 65535 /\ q.depth >= 1 /\ q.fpl >= 2
 
